@@ -248,7 +248,7 @@ class History(Machine):
             "faults_enabled": s.chance(0.5),
             # one build directory for all commands of the history: every command finds the output files of the others
             # (same names, other lengths) where it is about to write
-            "shared_workdir": s.chance(0.3),
+            "shared_workdir": s.chance(0.4),
             "fault_kinds": s.subset(["crash", "enospc", "eio_read", "short_read", "short_write", "write_fail", "open_fail", "stat_fail"], 0.6),
         }
         feats = [f for f in gen.ALL_FEATURES if s.chance(0.65)]
@@ -410,7 +410,14 @@ class History(Machine):
         optional.append({"kind": "cli", "label": "convert", "seed": seed,
                          "argv": ["convert", "--input-file", f"{W}/in/keys/hk.pem", "--output-file", f"{W}/out/key.c"],
                          "inputs": [{"rel": "in/keys/hk.pem", "type": "key", "name": "hk", "kind": kkind, "enc": "pem"}]})
-        pool += s.sample(optional, s.randint(3, 8) if tier == "quick" else s.randint(5, len(optional)))
+        chosen = s.sample(optional, s.randint(3, 8) if tier == "quick" else s.randint(5, len(optional)))
+        if swarm.get("shared_workdir"):
+            # one build directory for everything: make sure commands that write the *same file names with other lengths*
+            # meet there (the two encryptions; sign / extract / cache all write out/e.suit)
+            for t in optional:
+                if t["label"] in ("encrypt", "encrypt-b", "sign", "payload-extract") and t not in chosen:
+                    chosen.append(t)
+        pool += chosen
         n = s.randint(8, 20) if tier == "quick" else s.randint(12, 40)
         ops = [{"kind": "refs", "i": 0}]
         last = None
